@@ -28,7 +28,7 @@ ASSUMPTIONS = [
 EXHAUSTIVE_SCOPE = {"quick": "all interleavings of 2 solvers x 4 steps and 3 solvers x 2 steps per drawn problem tuple",
                     "thorough": "all interleavings of 2 solvers x 4 steps and 3 solvers x 2 steps per drawn problem tuple"}
 NONTRIVIAL_FLOOR = {"quick": 150, "thorough": 1500}
-CAP = 40
+CAP = 70
 
 
 def plan(tier):
@@ -38,7 +38,16 @@ def plan(tier):
 @st.composite
 def solver_spec(draw):
     # "arbitrary problems": mostly N=1..5, sometimes 6 or 7 (Rastrigin and XSquared ship in any dimension)
-    recipe = draw(gen.problem_recipe(dims=(1, 2, 3, 4, 5, 1, 2, 3, 4, 5, 6, 7)))
+    recipe = draw(gen.problem_recipe(dims=(1, 2, 3, 4, 5, 1, 2, 3, 4, 5, 6, 7), densities=(10, 10, 10, 8, 12, 6)))
+    if draw(st.integers(0, 11)) == 0:
+        # a solver that runs into the float resolution of the curve coordinate (the method's own 'outside of interval'
+        # branch): eps far below the spacing of doubles on a kinked 1-D objective
+        recipe, params = draw(gen.resolution_case())
+        recipe = dict(recipe, density=10) if recipe["n"] == 1 else recipe
+        spec = {"recipe": recipe, "params": dict(params, itersLimit=70)}
+        if draw(st.booleans()):
+            spec["share"] = draw(st.integers(0, 3))
+        return spec
     if draw(st.integers(0, 4)) == 0:
         # a shipped benchmark problem (their generators keep tables; two live instances must not share them)
         recipe = draw(gen.shipped_recipe(grishagin=True))
@@ -157,8 +166,9 @@ class IsolationMachine(MachineMixin, RuleBasedStateMachine):
         if spec.get("share") is not None and spec["params"] is not None and self.live:
             donor = self.live[spec["share"] % len(self.live)]
             if donor.spec["params"] is not None:
-                # same object, hence the same values (density is 10 for every C12 recipe)
-                spec = dict(spec, params=dict(donor.spec["params"]))
+                # same object, hence the same values - the density included, which lives in the same object
+                spec = dict(spec, params=dict(donor.spec["params"]),
+                            recipe=dict(spec["recipe"], density=donor.spec["recipe"].get("density", 10)))
                 sp_obj = donor.run.sp
                 self.cls.add("shared-parameters-object")
         self.live.append(Live(spec, sp_obj))
